@@ -2,6 +2,7 @@
 import gens, common
 from common import Failure
 from props._base import *  # noqa
+TRUSTED_BASE = TRUSTED_BASE + ['tools/py2lean.py (syntax-directed translation of the Python source into A5/Gen/Src.lean, regenerated every run) and the operator semantics of A5/Model/PySem.lean — both exercised every run by executing the translated source (lean/SrcMain.lean) against the implementation on the same ops, negative ints included', 'kernel-checked bridge theorems (A5/Proofs/SrcBridge*.lean, A5/Props/SrcTie/*.lean): translated source = hand-written model for EVERY non-negative id / every list of ids / every int argument']
 from refids import ref_decode, ref_compact_set, is_antichain, ref_res, MAXV, ref_id, ref_children_set
 
 LEAN_MODULES = ['A5.Props.C09', 'A5.Props.SrcTie.Compact']
@@ -10,12 +11,14 @@ LEVEL = 'proof'
 EXPLANATION = ('Lean theorems for EVERY antichain of valid ids (duplicates, mixed resolutions, any order): output Nodup, antichain, same coverage, no complete sibling group (Reduced), '
                'canonical (two antichains with equal coverage compact to the same set — uniqueness of the reduced antichain, proved with a laminar family of finest-level index spans), '
                'order/duplication invariance, idempotence. Proved for the repaired algorithm (hierarchical sort key, fix c1fbec5); the sort key is shown to lie inside 4*span. '
-               'Tie: differential correspondence of compact (output as emitted) incl. the initial sort.')
+               'Tie: differential correspondence of compact (output as emitted) incl. the initial sort.'
+               " SOURCE-LEVEL TIE (every run): the functions of this property's cone are translated from /repo's current source by tools/py2lean.py into Lean definitions (A5/Gen/Src.lean); bridge theorems prove, for every input (no sampling), that the translated definitions compute exactly what the hand-written model computes, and the headline theorems are restated about the translated source (`*_of_source`). A source change changes the generated definitions and the kernel re-checks the bridges; a construct outside the translated subset (decorators, global state, …) is reported as a broken tie.")
 RULE = ('ops: antichains from bounded sub-hierarchies spanning every aperture, res-0 cells mixed with finer cells of other faces (the repaired defect), arithmetic progressions with every plausible stride, '
         'cascades to resolution 29, permutations/duplications; search: output vs an independent set-based reference compaction, idempotence, order/duplication invariance')
-ASSUMPTIONS = ['sampled agreement of A5/Model/Compact.lean (incl. sorted(set(.), key=_hierarchical_key)) with a5/core/compact.py extends to all inputs']
-LEVEL_TEXT = 'machine-checked proof (Lean 4 kernel) of minimality, canonicity, order/duplication invariance and idempotence for every antichain; model tied by differential correspondence'
-TECHNIQUE = 'Lean 4 proof (span-sorted invariant, adjacency of sibling groups, uniqueness of reduced antichains) + differential correspondence'
+ASSUMPTIONS = ['the translator tools/py2lean.py and A5/Model/PySem.lean (incl. sorted(set(.), key=.) for an injective key) represent CPython faithfully (validated every run by executing the translated source against the implementation)']
+LEVEL_TEXT = 'machine-checked proof (Lean 4 kernel) of minimality, canonicity, order/duplication invariance and idempotence for every antichain; model tied to the source by per-run translation + kernel-checked bridge theorems, and by differential correspondence'
+TECHNIQUE = 'Lean 4 proof (span-sorted invariant, adjacency of sibling groups, uniqueness of reduced antichains) + differential correspondence + source translated to Lean each run (py2lean) with bridge theorems Src = Model for all inputs'
+LEVEL_NOTE = 'trusted: Lean kernel + standard axioms; gen_tables.py; py2lean.py + PySem.lean (translator and Python operator semantics, executed against the implementation every run); CPython int/list semantics as modelled there'
 DESIGN_REF = 'DESIGN.md §3 C09'
 
 def antichain_lists(tier, rng):
